@@ -374,6 +374,7 @@ def describe_sched(p):
 # --------------------------------------------------------------------------
 def gen_real(rng, thorough=False, force=None):
     """One real fit.  `force` selects a structured family that must occur in every run:
+    'pa0' (true PA exactly 0 or pi: the fitted PAs straddle the seam, for the model image),
     'wide' / 'tall' (frame aspect 1:2-1:3 with the galaxy centre beyond the shorter dimension along the
     long axis, nothing fixed, bilinear: for the model image), 'fix-offframe' / 'fix-maxrit' / 'fix-none'
     (a fix_* request whose value differs from the truth, with an outward pass that ends non-iteratively
@@ -409,14 +410,16 @@ def gen_real(rng, thorough=False, force=None):
     sma0 = rng.choice([6.0, 8.0, 10.0, rng.uniform(5, 12)])
     sma0 = max(sma0, 2.5 / (1.0 - eps))             # the first ellipse is itself resolved (semi-minor axis >= 2.5)
     minsma = rng.choice([0.0, 0.0, 2.0, 3.0, sma0 - 0.3, sma0 * 0.93])
-    if force in ('wide', 'tall'):
+    if force == 'pa0':
+        pa = rng.choice([0.0, math.pi])             # major axis along the image x axis: fitted PAs straddle the 0/pi seam
+    if force in ('wide', 'tall', 'pa0'):
         lin, step, minsma = False, 0.1, 0.0         # a long list, so that the model image has a region to test
     # outward pass: unbounded (ends on failures), bounded inside the frame, bounded BEYOND the frame (fits
     # fail on off-frame ellipses, the tail is extracted non-iteratively), or non-iterative beyond maxrit
     maxrit = None
     out = rng.choice(['none', 'in', 'in', 'in', 'off', 'maxrit'])
     out = {'fix-offframe': 'off', 'fix-maxrit': 'maxrit', 'fix-none': 'none', 'wide': 'in', 'tall': 'in',
-           'chan-ctor': 'in', 'chan-attr': 'off', 'chan-disagree': 'in'}.get(force, out)
+           'chan-ctor': 'in', 'chan-attr': 'off', 'chan-disagree': 'in', 'pa0': 'in'}.get(force, out)
     if out == 'none':
         maxsma = None
     elif out == 'in':
@@ -428,7 +431,7 @@ def gen_real(rng, thorough=False, force=None):
     fixes = rng.choice([(False, False, False)] * 4 + [(True, False, False), (False, True, False),
                                                       (False, False, True), (True, True, False),
                                                       (False, True, True), (True, False, True)])
-    if force in ('wide', 'tall'):
+    if force in ('wide', 'tall', 'pa0'):
         fixes = (False, False, False)
     elif force is not None:
         fixes = rng.choice([(True, False, False), (False, True, False), (False, False, True),
@@ -515,7 +518,7 @@ def run_real(p, record_steps=True):
 
 
 # structured families generated in every run (see gen_real)
-FORCED_REAL = ['wide', 'tall', 'fix-offframe', 'fix-maxrit', 'fix-none', 'chan-ctor', 'chan-attr', 'chan-disagree']
+FORCED_REAL = ['wide', 'tall', 'pa0', 'fix-offframe', 'fix-maxrit', 'fix-none', 'chan-ctor', 'chan-attr', 'chan-disagree']
 
 # inputs that once exposed a defect; run first in every tier
 PINNED_REAL = [
@@ -549,8 +552,8 @@ PINNED_REAL = [
 ]
 
 
-MODEL_MEDIAN_TOL = 0.03      # observed on the repaired tree: median <= 0.016, 90th percentile <= 0.04 (see evidence)
-MODEL_P90_TOL = 0.10
+MODEL_MEDIAN_TOL = 0.03      # observed on the repaired tree (quick seeds 0-2, thorough): median <= 0.019, 90th percentile <= 0.04
+MODEL_P90_TOL = 0.07
 
 
 MODEL_COVERAGE_TOL = 0.99    # fraction of the region that the model fills (observed: 1.0)
@@ -825,7 +828,7 @@ def run(ctx):
         'build_ellipse_model reproduces the image inside the fitted region: spline numerics, tested only '
         '(support:model_image; frames of aspect 1:3 to 3:1 with the galaxy centred beyond the shorter dimension; '
         'the region of ellipses inside the frame must be filled to >= 99 %, median relative residual <= 3 %, 90th '
-        'percentile <= 10 %)',
+        'percentile <= 7 %)',
         'fixed parameters: proved of the fitter model for the whole iteration (fixed_params_kept; fixed eps for a '
         'start eps > 0); fix_geometry / non-iterative paths are tested only: on real fits every fix_* request (at '
         'the truth or deliberately away from it; outward pass unbounded / bounded / ending non-iteratively beyond '
@@ -1029,7 +1032,11 @@ def run(ctx):
             if kind == 'real' and obs['kind'] == 0 and len(obs['isos']) >= 12 and p['integr'] == 'bilinear'
             and not any(eff_fixes(p))]
     # galaxies centred beyond the shorter frame dimension first (image axes must not be interchangeable)
-    elig = [e for e in elig if beyond(e[0])][:(3 if quick else 10)] + [e for e in elig if not beyond(e[0])][:(3 if quick else 10)]
+    def seam(p):
+        return p['pa'] in (0.0, math.pi)
+    elig = ([e for e in elig if beyond(e[0])][:(3 if quick else 10)]
+            + [e for e in elig if seam(e[0]) and not beyond(e[0])][:(3 if quick else 10)]
+            + [e for e in elig if not beyond(e[0]) and not seam(e[0])][:(2 if quick else 10)])
     for p, obs in elig:
         try:
             res = model_residual(p, obs)
@@ -1041,6 +1048,8 @@ def run(ctx):
             continue
         rel, coverage = res
         ctx.stat('model_image', 'centre-beyond-shorter-dimension' if beyond(p) else 'centre-within-shorter-dimension')
+        if seam(p):
+            ctx.stat('model_image', 'pa-on-the-0/pi-seam')
         d = ctx.cov['correspondence'].setdefault('model_image', {})
         d['least_filled_fraction'] = min(d.get('least_filled_fraction', 1.0), round(coverage, 5))
         if coverage < MODEL_COVERAGE_TOL:
